@@ -228,6 +228,13 @@ def check(run):
         text = crashgen.wrap_xml(crashgen.DECL[0] + '\n' + d)
         ssrc[cid] = ('parse_XML_buffer', text)
         j.case(cid, fork=True).model('xml', text).dump('errors').dump('inv').end()
+    # objects whose types differ in a const prefix, a range or the element type, compared / assigned / passed by reference / joined by a conditional
+    tp = crashgen.type_pairs()
+    for k, d in enumerate(tp if thorough else [x for i, x in enumerate(tp) if i % 2 == run.seed % 2 or i % 11 < 4]):
+        cid = 'tp%d' % k
+        text = crashgen.wrap_xml(BASE_DECL + '\n' + d)
+        ssrc[cid] = ('parse_XML_buffer', text)
+        j.case(cid, fork=True).model('xml', text).dump('errors').end()
     # queries whose construction reports a diagnostic, or that are ill-typed: the property builders type-check them all the same
     ps_model = crashgen.wrap_xml(BASE_DECL).replace('</template><system>', '</template><template><name>PS</name><parameter>const int[0,1] i, const int[0,2] j</parameter><location id="id9"><name>L</name></location><init ref="id9"/></template><system>').replace('system P;', 'system P, PS;')
     for k, q in enumerate(crashgen.QUERY_SEM):
